@@ -111,6 +111,7 @@ def check(ctx):
                 return ok(Val("unit"))
             return None
         return model
+    evaluated = True
     for ftv, pre in (("Certificate", "cert"), ("PrivateKey", "pk")):
         for u in (True, False):
             for g in (True, False):
@@ -125,6 +126,7 @@ def check(ctx):
                         good = r.kind == "return" and all(x[1].endswith("None") and x[2].endswith("None") for x in ch)
                     else:
                         good = r.kind == "return" and len(ch) == 1 and ch[0][1].endswith(want_u) and ch[0][2].endswith(want_g) and "PATH" in ch[0][0]
+                    evaluated = evaluated and r.kind == "return"
                     ctx.require(R2, good, "%s:%s" % (so.file, so.line), "%s file, owner %s, group %s (%s): chown(path, %s, %s) — found %s (run %s)"
                                 % (ftv, "set" if u else "unset", "set" if g else "unset", "numeric" if numeric else "named", want_u, want_g, ch, r.kind),
                                 ["set_owner", "chown-table", ftv, str(u), str(g), kind])
@@ -133,13 +135,15 @@ def check(ctx):
         if v == "Account":
             ctx.require(R2, r.kind == "return" and not r.called("nix::unistd::chown"), "%s:%s" % (so.file, so.line), "account files are not chown-ed (owner = daemon user)", ["set_owner", "table", v])
             continue
+        if evaluated:
+            continue        # the 16-row table above already decides which fields feed which slot, in every shape of the code
         tup = [x for x in (r.env or {}).values() if x.k == "tuple" and len(x.v) == 2 and all(y.deref().k == "unknown" for y in x.v)]
         exp = OWNER_TABLE[v]
         good = any((t.v[0].deref().v or "").endswith(exp[0]) and (t.v[1].deref().v or "").endswith(exp[1]) for t in tup)
         ctx.require(R2, good, "%s:%s" % (so.file, so.line), "%s files take (fm%s, fm%s) (found %s)" % (v, exp[0], exp[1], tup), ["set_owner", "table", v])
     ch = so.calls_to("nix::unistd::chown")
     ctx.floor(R2, "chown call in set_owner", len(ch), 1)
-    for c in ch:
+    for c in ([] if evaluated else ch):
         u = arg_origins(c, 1)
         g = arg_origins(c, 2)
         uf = {f for a, f in u.fields if a == FM}
